@@ -42,11 +42,12 @@ def _find_fab(path, lo, hi, nf, nd):
     with open(path, "rb") as f:
         d = f.read()
     pat = (b"((" + ",".join(map(str, lo)).encode() + b") (" + ",".join(map(str, hi)).encode() + b") ("
-           + b",".join([b"0"] * nd) + b")) " + str(nf).encode() + b"\n")
+           + b",".join([b"0"] * nd) + b")) " + str(nf).encode())
     out = []
     shp = [hi[k] - lo[k] + 1 for k in range(nd)] + [nf]
     n = int(np.prod(shp)) * 8
-    for m in re.finditer(re.escape(pat), d):
+    # (blanks / tabs between the component count and the line end belong to the header line)
+    for m in re.finditer(re.escape(pat) + rb"[ \t]*\n", d):
         raw = d[m.end():m.end() + n]
         if len(raw) == n:
             out.append(np.frombuffer(raw, "<f8").reshape(shp, order="F"))
